@@ -24,8 +24,11 @@ BASE_DEFS = ["-DHAVE_CONFIG_H", "-DORC_ENABLE_UNSTABLE_API", "-D_GNU_SOURCE"]
 VARIANTS = {
     # name: (compiler, flags, hooks)
     "plain": ("gcc", ["-O1", "-g", "-fno-omit-frame-pointer"], True),
-    "asan": ("gcc", ["-O1", "-g", "-fno-omit-frame-pointer", "-fsanitize=address,undefined",
-                     "-fno-sanitize-recover=undefined", "-fno-sanitize=alignment"], True),
+    # address + array-bounds instrumentation: the bounds check sees intra-object overflows of the fixed tables
+    # (tokens[16], insns[100], vars[-1]) that AddressSanitizer cannot; other UBSan checks (null member address
+    # computation, signed overflow) are not memory-safety verdicts and are left out on purpose
+    "asan": ("gcc", ["-O1", "-g", "-fno-omit-frame-pointer", "-fsanitize=address,bounds",
+                     "-fno-sanitize-recover=bounds"], True),
     "tsan": ("clang", ["-O1", "-g", "-fsanitize=thread"], True),
     "nohooks": ("gcc", ["-O1", "-g"], False),
 }
